@@ -283,6 +283,7 @@ type Ctx struct {
 	N       int // case budget multiplier already applied
 	Search  bool
 	Drv     *Driver
+	DrvPath string
 	Res     *Result
 	RNG     *RNG
 	WorkDir string
@@ -318,7 +319,7 @@ func main() {
 	loadKnown(*known)
 	res := &Result{Property: *prop, Tier: *tier, Seed: *seed, Dist: map[string]int{}, KnownSeen: map[string]int{},
 		seen: map[[32]byte]struct{}{}, Samples: []any{}, Findings: []Finding{}}
-	c := &Ctx{Prop: *prop, Tier: *tier, Seed: *seed, Search: *search, Res: res, RNG: NewRNG(*seed), WorkDir: *work, Replay: *replay}
+	c := &Ctx{Prop: *prop, Tier: *tier, Seed: *seed, Search: *search, Res: res, RNG: NewRNG(*seed), WorkDir: *work, Replay: *replay, DrvPath: *driver}
 	if *driver != "" {
 		d, err := StartDriver(*driver)
 		if err != nil {
